@@ -3073,18 +3073,25 @@ func (s *swamp) fileWriterHandler(isCloseWrite bool) {
 		return
 	}
 
-	var treasuresToWrite []treasure.Treasure
+	var waiting []treasure.Treasure
 	s.treasuresWaitingForWriter.Iterate(func(t treasure.Treasure) bool {
 
-		treasuresToWrite = append(treasuresToWrite, t)
+		waiting = append(waiting, t)
 		return true
 
 	}, beacon.IterationTypeKey)
 
-	// delete the treasures from the swamp and from the chroniclerInterface too
-	for _, t := range treasuresToWrite {
-		// delete the treasure from the treasuresWaitingForWriter index
-		s.treasuresWaitingForWriter.Delete(t.GetKey())
+	// Take the treasures out of the waiting index - and write what was taken out,
+	// not what was listed a moment ago: between the two a save can have replaced
+	// the object that waits under a key (a re-creation of a key whose delete was
+	// still pending does exactly that). Removing by key what had been listed threw
+	// the newer object out of the index without it ever being written, and the
+	// acknowledged save was gone after the next reload.
+	treasuresToWrite := make([]treasure.Treasure, 0, len(waiting))
+	for _, t := range waiting {
+		if current := s.treasuresWaitingForWriter.ShiftOne(t.GetKey()); current != nil {
+			treasuresToWrite = append(treasuresToWrite, current)
+		}
 	}
 
 	// A Write funkció megvárja ameddig az előző write befejezi a munkáját, így nem kell
